@@ -622,6 +622,7 @@ def h_utm(request, n_cand):
     # the stand-in gives each candidate its own share, the winner must have the largest)
     win_pool = [c for c in pool if c % 100 == zone]
     prove("result_is_a_utm_zone_from_the_database", len(win_pool) >= 1)
+    request = request.lower()  # the request is case-insensitive ("UTM-N", "Utm-s", ...)
     if request == "utm":
         prove("result_is_a_candidate", code in pool)
         if n_cand > 1:
@@ -726,7 +727,7 @@ OBLIGATIONS = [
        descr="GeoBox.to_crs and .odc.output_geobox hand every option on unchanged", functions=("odc.geo.geobox.GeoBox.to_crs", "odc.geo._xr_interop.ODCExtension.output_geobox"), **COMMON),
     Ob("E6_reproject_options", h_reproject_options, fixed(), descr="xr_reproject(src, crs, **options): grid options are separated from warp options and handed on unchanged (falsy values included)",
        functions=("odc.geo._xr_interop._extract_output_geobox_params",), **COMMON),
-    Ob("U1_utm", h_utm, fixed(*[dict(request=r, n_cand=n) for r in ("utm", "utm-n", "utm-s") for n in (1, 2, 4)]),
+    Ob("U1_utm", h_utm, fixed(*[dict(request=r, n_cand=n) for r in ("utm", "utm-n", "utm-s") for n in (1, 2, 4)], dict(request="UTM-N", n_cand=4), dict(request="Utm-S", n_cand=2), dict(request="UTM", n_cand=2)),
        descr="'utm': the database candidate with the largest share of the raster (the first one for a point); 'utm-n'/'utm-s': that zone in the requested hemisphere",
        functions=("odc.geo.crs.norm_crs", "odc.geo.crs.CRS.utm", "odc.geo.crs._pick_best_crs"), bounds="<= 4 candidate zones (33N, 33S, 34N, 34S) listed in a symbolic rotation, symbolic overlap shares and region area",
        stubs=("pyproj.database.query_utm_crs_info and CRS.valid_region replaced by a stand-in database",), **COMMON),
